@@ -155,6 +155,58 @@ var cfgC12 = reg(PropCfg{
 func TestC10(t *testing.T) { RunProperty(t, cfgC10) }
 func TestC11(t *testing.T) { RunProperty(t, cfgC11) }
 func TestC12(t *testing.T) { RunProperty(t, cfgC12) }
+var cfgC17 = reg(PropCfg{
+	ID: "C17",
+	Profile: &Profile{Weights: mixedWeights(), MinBlocks: 8, MaxBlocks: 40, MaxTxs: 4, MaxOps: 2, PUpper: 4, PActor: 5, PNamed: 1, PFault: 2, PExec: 5,
+		PGovParams: 0, PBadRef: 3, Vesting: true, TinyLimits: true, ValidParams: true, BigAmounts: true},
+	Rule: "history reaching a committed state with 0 < locked < supply, >= 3 denominations and a page limit below the number of denominations (>= 2 pages)",
+	NonTrivial: func(w *World) bool { return w.Classes["c17.locked-partial"] > 0 && w.Classes["c17.multi-page-3-denoms"] > 0 },
+	MinClasses: map[string]int{"c17.locked-partial": 20, "c17.multi-page-3-denoms": 50},
+	Assume:     []string{"figures are read through the ABCI Query route on committed state; HTTP route precedence of the REST gateway is not exercised", "page plans (limit, key/offset, count_total, reverse) cycle deterministically with the block height"},
+})
+
+func TestC17(t *testing.T) { RunProperty(t, cfgC17) }
+var cfgC14 = reg(PropCfg{
+	ID: "C14",
+	Profile: &Profile{Weights: mixedWeights(), MinBlocks: 8, MaxBlocks: 40, MaxTxs: 4, MaxOps: 4, PUpper: 6, PActor: 8, PNamed: 2, PFault: 4, PExec: 8,
+		PGovParams: 12, PBadRef: 5, Vesting: true, TinyLimits: true, BigAmounts: true, EntDenomChange: true, LongTime: true, GasSweep: true, MultiPct: 35},
+	Rule: "history with a failed multi-message tx whose first message was viable alone, or enterprise parameters changed while an order was queued",
+	NonTrivial: func(w *World) bool {
+		return w.Classes["c14.failed-multi-message-tx-first-op-viable"] > 0 || w.Classes["c14.ent-params-changed-with-order-queued"] > 0
+	},
+	MinClasses: map[string]int{"c14.failed-multi-message-tx-first-op-viable": 20},
+	Assume:     []string{"undecodable transactions are not generated; 'pre-execution effects' = signer sequences, fee movement payer -> fee collector, and the eFUND unlock of the payer"},
+})
+
+func TestC14(t *testing.T) { RunProperty(t, cfgC14) }
+var cfgC13 = reg(PropCfg{
+	ID: "C13",
+	Profile: &Profile{Weights: map[string]int{EntRaise: 8, EntDecide: 12, EntWL: 6, WrkReg: 5, WrkRec: 9, WrkPur: 4, BcnReg: 5, BcnRec: 8, BcnPur: 4,
+		StrCreate: 8, StrClaim: 8, StrTopUp: 4, StrUpdate: 4, StrCancel: 4, ParamsEnt: 2, ParamsWrk: 2, ParamsBcn: 2, ParamsStr: 2, BankSend: 2},
+		MinBlocks: 8, MaxBlocks: 35, MaxTxs: 5, MaxOps: 2, PUpper: 8, PActor: 30, PNamed: 12, PFault: 6, PExec: 14, PGovParams: 6, PBadRef: 3,
+		TinyLimits: true, MultiPct: 5},
+	Rule: "history containing >=1 attempt by an unentitled party on a live target (the same message would be meaningful for the entitled party); distinct by scenario hash",
+	NonTrivial: func(w *World) bool { return w.Classes["c13.attempt-on-live-target"] > 0 },
+	MinClasses: map[string]int{"c13.attempt-on-live-target": 200, "c13.entitled-control-ok": 500, "c13.attempt.exec-without-grant": 20, "c13.attempt.names-other-account": 20, "c13.control-via-grant": 3},
+	Assume:     []string{"a valid authz grant from the entitled party is entitlement (the granter signed the grant); such transactions are controls, not attacks"},
+})
+
+func TestC13(t *testing.T) { RunProperty(t, cfgC13) }
+var cfgC16 = reg(PropCfg{
+	ID: "C16",
+	Profile: &Profile{Weights: mixedWeights(), MinBlocks: 10, MaxBlocks: 40, MaxTxs: 3, MaxOps: 2, PUpper: 4, PActor: 4, PNamed: 1, PFault: 1, PExec: 4,
+		PGovParams: 40, PBadRef: 3, TinyLimits: true, DupSigners: false},
+	Oracles: []string{"C16", "C03", "C08", "C10"},
+	Alias:   map[string]string{"C03": ParamsEnt, "C08": ParamsWrk, "C10": ParamsStr},
+	Rule:    "history with >=1 applied parameter update followed by a probe or operation whose outcome depends on the new values (fee probe admitted/rejected, tally, limit, fee split)",
+	NonTrivial: func(w *World) bool {
+		return w.Classes["c16.update-applied"] > 0 && (w.Classes["c16.probe-old-fee-rejected"]+w.Classes["c03.accepted"]+w.Classes["c03.rejected"]+w.Classes["c10.release-with-fee"]+w.Classes["c08.ok."+WrkReg] > 0)
+	},
+	MinClasses: map[string]int{"c16.update-applied": 100, "c16.probe-old-fee-rejected": 10, "c16.probe-new-fee-admitted": 10, "c16.invalid-update-rejected-at-execution": 0},
+	Assume:     []string{"calling the message server with invalid parameters while bypassing ValidateBasic is not reachable through governance and is not asserted", "the C03 (tally), C08 (limits) and C10 (fee split) oracles run as probes; their findings count for C16 once an update of that module has been applied in the same history"},
+})
+
+func TestC16(t *testing.T) { RunProperty(t, cfgC16) }
 func TestC06(t *testing.T) { RunProperty(t, cfgC06) }
 func TestC07(t *testing.T) { RunProperty(t, cfgC07) }
 func TestC08(t *testing.T) { RunProperty(t, cfgC08) }
